@@ -30,6 +30,7 @@ inductive Err where
 inductive View (α : Type) where
   | one (v : α)
   | many (vs : List α)
+  deriving DecidableEq
 
 inductive Out (α : Type) where
   | none                                  -- `None` / statement without value
@@ -43,6 +44,7 @@ inductive Out (α : Type) where
   | views (ws : List (View α))
   | items (kws : List (String × View α))
   | err (e : Err)
+  deriving DecidableEq
 
 /-- the public operations of C10; `σ` is the type of a `ParseResults` argument (`+=`, `extend`) -/
 inductive Op (α σ : Type) where
